@@ -86,6 +86,14 @@ def gen_cases(rng, tier):
         ops = rand_path_ops(rng, 8191 + rng.uniform(-6, 6), 10, 9, curves=False)
         # kind 0: Pixmap::fill_path, kind 1: Mask::fill_path (both are tiled above 8191)
         cases.append(("fill_px", [i % 2, 1, (i // 2) % 2, 8230, 20, 8160, 8225, 750, 350] + list(IDENT) + ops))
+    # shapes that end a fraction of a pixel to two pixels past the tile seam: the next tile holds only their last column(s)
+    for i in range(6 if tier == "quick" else 48):
+        over = rng.choice([0.3, 0.45, 0.6, 0.9, 1.3, 1.8])
+        x1 = 8191 + over
+        x0 = 8191 - rng.uniform(3, 12)
+        y0, y1 = rng.uniform(2, 5), rng.uniform(12, 17)
+        pts = [(x0, y0), (x1, y0 + rng.uniform(0, 2)), (x1, y1), (x0, y1 - rng.uniform(0, 2))]
+        cases.append(("fill_px", [i % 2, 1, (i // 2) % 2, 8230, 20, 8160, 8225, 750, 350] + list(IDENT) + poly_ops(pts, grid=64.0)))
     return cases
 
 
